@@ -218,7 +218,7 @@ func (ctx *_OpContextType) encodeRaw(as abi.As, arg *abi.AsArgument) (x uint32, 
 	case OpFormatType_cd_2F:
 		cd := ctx.regFCC(arg.Rd)
 		fj := ctx.regF(arg.Rs1)
-		fk := ctx.regF(arg.Rs1)
+		fk := ctx.regF(arg.Rs2)
 		x |= (fk << 10) | (fj << 5) | cd
 		return
 	case OpFormatType_1R_cj:
